@@ -80,12 +80,17 @@ func Watch(p *Progress, done <-chan struct{}, interval time.Duration, samples in
 		}
 		same++
 		d := Dump()
-		ps := relevant(ParkedInBio(Parse(d)))
+		gs := Parse(d)
+		ps := relevant(ParkedInBio(gs))
 		worker := false
 		for _, x := range ps {
 			if x.Worker {
 				worker = true
 			}
+		}
+		if active(gs) {
+			// somebody in the harness or in bio-rd can still run (or sleeps on a timer): not a deadlock, only slow
+			worker = false
 		}
 		if worker {
 			parkedRuns++
@@ -96,7 +101,7 @@ func Watch(p *Progress, done <-chan struct{}, interval time.Duration, samples in
 		if same >= samples && parkedRuns >= samples {
 			return Verdict{Kind: "deadlock", Analysis: Analyse(lastParked), Witness: Render(lastParked), Dump: lastDump, Ops: cur}
 		}
-		if same >= samples+2 && parkedRuns == 0 {
+		if same >= samples+7 && parkedRuns == 0 {
 			// give up: nothing moves and nobody waits inside bio-rd
 			select {
 			case <-done:
@@ -106,4 +111,34 @@ func Watch(p *Progress, done <-chan struct{}, interval time.Duration, samples in
 			return Verdict{Kind: "stalled", Dump: d, Ops: cur}
 		}
 	}
+}
+
+// active reports whether somebody can still complete operations or release a table lock: a goroutine other than the
+// watchdog's own that is running, runnable, in a system call or asleep on a timer and either has harness code on its
+// stack (a worker or a harness helper) or is one of bio-rd's own goroutines inside table code (it may hold a table
+// lock and merely be slow). bio-rd's periodic goroutines waking up (update sender ticker, FSM timers) do not count.
+func active(gs []G) bool {
+	for _, g := range gs {
+		switch g.State {
+		case "running", "runnable", "syscall", "sleep", "IO wait":
+		default:
+			continue
+		}
+		harness, table, self := false, false, false
+		for _, f := range g.Frames {
+			if f.Harness() {
+				harness = true
+			}
+			if strings.HasPrefix(f.Func, bioPrefix+"routingtable") {
+				table = true
+			}
+			if strings.HasSuffix(f.Func, "conc.Watch") || strings.HasSuffix(f.Func, "conc.Dump") {
+				self = true
+			}
+		}
+		if (harness || table) && !self {
+			return true
+		}
+	}
+	return false
 }
